@@ -38,3 +38,14 @@ func (c cachedFactory) NewImmutable(d db.Database, h []byte) Snap {
 	return c.NewMutable(d, h).Snapshot()
 }
 func (c cachedFactory) MutableFrom(s Snap) Mut { return c.attach(c.inner.MutableFrom(s)) }
+
+// FlushVerifier flushes a trie obtained from NewImmutable (a verifier that
+// accumulated nodes from proofs, or a trie opened from the database): the
+// objects goloop returns for immutables also implement Flush.
+func FlushVerifier(s Snap) (bool, error) {
+	type flusher interface{ Flush() error }
+	if f, ok := s.Raw().(flusher); ok {
+		return true, f.Flush()
+	}
+	return false, nil
+}
